@@ -107,6 +107,42 @@ def run(facts):
                 helpers[b.did] = (b, p)
     if len(helpers) < 4:
         raise RuleError("fewer than 4 unsafe helpers with stated preconditions found (%d)" % len(helpers))
+    # derived preconditions: a non-public `unsafe fn` that hands one of its own parameters to a helper without establishing the
+    # helper's precondition inherits it (`unsafe fn bump(&mut self, n) { self.advance_unchecked(n) }`), so that the obligation
+    # reaches the first safe caller instead of disappearing in the wrapper
+    n_stated = len(helpers)
+    for _round in range(3):
+        added = False
+        for b in facts.fn_bodies():
+            if b.kind not in ("fn", "assoc_fn") or b.safety != "unsafe" or str(b.vis).startswith("Public") or is_slot_or_public_entry(facts, b):
+                continue
+            eb = ExprBuilder(b, facts, inline=True)
+            own = list(helpers[b.did][1]) if b.did in helpers else []
+            for bi, t in b.calls():
+                if b.blocks[bi]["cleanup"] or in_debug_region(b, bi):
+                    continue
+                fn = callee(t)
+                r = (fn or {}).get("res") or {}
+                if not (r.get("local") and r.get("did") in helpers) or r.get("did") == b.did:
+                    continue
+                loc = (bi, len(b.blocks[bi]["stmts"]))
+                args = {i + 1: eb.operand(a, loc) for i, a in enumerate(t["args"])}
+                ctx = Ctx(b, bi, facts, extra=own)
+                for rel in helpers[r["did"]][1]:
+                    want = tuple(norm_handle(canon(subst(x, args))) if isinstance(x, tuple) else x for x in rel)
+                    if ctx.holds(want):
+                        continue
+                    # expressible in the wrapper's own parameters only (no calls, no loop variables)?
+                    if all(y[0] in ("param", "field", "deref", "ref", "const", "bin", "cast") for z in want[1:] if isinstance(z, tuple) for y in walk(z)) \
+                            and any(y[0] == "param" for z in want[1:] if isinstance(z, tuple) for y in walk(z)) and want not in own:
+                        own.append(want)
+                        added = True
+            if own and (b.did not in helpers or len(own) > len(helpers[b.did][1])):
+                helpers[b.did] = (b, own)
+        if not added:
+            break
+    if len(helpers) > n_stated:
+        res.notes.append("unsafe wrappers with derived preconditions: %s" % sorted(b.id for (b, p) in list(helpers.values())[n_stated:]))
     res.notes.append("unsafe helpers with stated preconditions: " + "; ".join(
         "%s: %s" % (b.id, ", ".join("%s(%s,%s)" % (r[0], fmt_expr(r[1]), fmt_expr(r[2]) if r[0] != "truth" else r[2]) for r in p))
         for (b, p) in helpers.values()))
